@@ -115,8 +115,10 @@ func (vm *VM) GetLocals(locals []Object) []Object {
 // Abort aborts the VM execution. It is safe to call this method from another
 // goroutine.
 func (vm *VM) Abort() {
-	vm.pool.abort()
+	// The flag is set before walking the pool so that a child VM which is
+	// about to run, see resetAbort, observes either the flag or the walk.
 	vm.abort.Store(1)
+	vm.pool.abort()
 }
 
 // Aborted reports whether VM is aborted. It is safe to call this method from
@@ -135,7 +137,7 @@ func (vm *VM) Run(globals Object, args ...Object) (Object, error) {
 	}
 
 	vm.err = nil
-	vm.abort.Store(0)
+	vm.resetAbort()
 	vm.initGlobals(globals)
 	vm.initLocals(args)
 	vm.initCurrentFrame()
@@ -165,6 +167,25 @@ func (vm *VM) Run(globals Object, args ...Object) (Object, error) {
 		return vm.stack[vm.sp-1], nil
 	}
 	return nil, ErrStackOverflow
+}
+
+// resetAbort clears the abort flag before a run. A child VM, which runs a
+// compiled function on behalf of a root VM, stays aborted if its root VM is
+// aborted; the decision is made under the root's pool lock because Abort of
+// the root sets children's flags under the same lock.
+func (vm *VM) resetAbort() {
+	root := vm.pool.root
+	if root == nil || root == vm {
+		vm.abort.Store(0)
+		return
+	}
+	root.pool.mu.Lock()
+	defer root.pool.mu.Unlock()
+	if root.abort.Load() == 1 {
+		vm.abort.Store(1)
+	} else {
+		vm.abort.Store(0)
+	}
 }
 
 func (vm *VM) run() (rerun bool) {
